@@ -389,6 +389,126 @@ Proof.
 Qed.
 
 
+Lemma extend_go_shape cl : forall ids k acc,
+  yielded (extend_go cl k acc ids) = [] /\ dropped (extend_go cl k acc ids) = [].
+Proof.
+  induction ids as [|x r IH]; intros k acc; cbn [extend_go].
+  - split; reflexivity.
+  - destruct (cl k); [split; reflexivity|apply IH].
+Qed.
+
+Lemma extend_go_quiet : forall ids k acc,
+  extend_go (fun _ => false) k acc ids = mkOutcome (acc ++ ids) [] [] false (k + length ids).
+Proof.
+  induction ids as [|x r IH]; intros k acc; cbn [extend_go].
+  - rewrite app_nil_r, Nat.add_0_r. reflexivity.
+  - rewrite IH, <- app_assoc. cbn [length app]. f_equal. lia.
+Qed.
+
+(* a producer-driven growth conserves: the vector holds its old elements and exactly the
+   productions that completed, nothing is dropped or handed out *)
+Theorem extend_clones_conserved cl l ids :
+  exists made rest, ids = made ++ rest /\ conserved (op_extend_clones cl l ids) (l ++ made) /\
+    final (op_extend_clones cl l ids) = l ++ made /\
+    (unwound (op_extend_clones cl l ids) = false -> rest = []).
+Proof.
+  unfold op_extend_clones, conserved.
+  destruct (extend_go_conserved cl ids 0 l) as (made & Hf & rest & Hr & Hu).
+  destruct (extend_go_shape cl ids 0 l) as (Hy & Hd).
+  exists made, rest. rewrite Hy, Hd, Hf, !app_nil_r. repeat split; auto.
+Qed.
+
+Theorem extend_iter_conserved nx l ids :
+  exists made rest, ids = made ++ rest /\ conserved (op_extend_iter nx l ids) (l ++ made) /\
+    final (op_extend_iter nx l ids) = l ++ made /\
+    (unwound (op_extend_iter nx l ids) = false -> rest = []).
+Proof. exact (extend_clones_conserved nx l ids). Qed.
+
+Theorem extend_is_std l ids : final (op_extend_iter (fun _ => false) l ids) = l ++ ids /\
+  unwound (op_extend_iter (fun _ => false) l ids) = false.
+Proof. unfold op_extend_iter. rewrite extend_go_quiet. split; reflexivity. Qed.
+
+Theorem resize_with_conserved f dp l new_len ids :
+  exists made rest, firstn (new_len - length l) ids = made ++ rest /\
+    conserved (op_resize_with f dp l new_len ids) (l ++ made) /\
+    (unwound (op_resize_with f dp l new_len ids) = false -> rest = []).
+Proof.
+  unfold op_resize_with. destruct (Nat.leb_spec new_len (length l)) as [Hle|Hgt].
+  - exists [], []. replace (new_len - length l) with 0 by lia.
+    split; [reflexivity|]. split; [rewrite app_nil_r; apply truncate_conserved|auto].
+  - destruct (extend_clones_conserved f l (firstn (new_len - length l) ids)) as (made & rest & Hr & Hc & _ & Hu).
+    exists made, rest. repeat split; assumption.
+Qed.
+
+Theorem resize_with_is_std dp l new_len ids : new_len - length l <= length ids ->
+  let o := op_resize_with (fun _ => false) dp l new_len ids in
+  final o = firstn new_len l ++ firstn (new_len - length l) ids /\ length (final o) = new_len.
+Proof.
+  intros Hn. unfold op_resize_with. destruct (Nat.leb_spec new_len (length l)) as [Hle|Hgt]; cbv zeta.
+  - rewrite truncate_spec. replace (new_len - length l) with 0 by lia. cbn [firstn]. rewrite app_nil_r.
+    split; [reflexivity|]. rewrite firstn_length. lia.
+  - rewrite extend_go_quiet. cbn [final]. rewrite (@firstn_all2 _ new_len l) by lia. split; [reflexivity|].
+    rewrite app_length, firstn_length. lia.
+Qed.
+
+Theorem resize_conserved cl dp l new_len ids v :
+  exists made rest, firstn (new_len - length l - 1) ids = made ++ rest /\
+    conserved (op_resize cl dp l new_len ids v) (l ++ made ++ [v]) /\
+    (unwound (op_resize cl dp l new_len ids v) = false -> length l < new_len -> rest = []).
+Proof.
+  unfold op_resize. destruct (Nat.leb_spec new_len (length l)) as [Hle|Hgt].
+  - exists [], []. replace (new_len - length l - 1) with 0 by lia. split; [reflexivity|]. split; [|intros _ H; lia].
+    pose proof (truncate_conserved dp l new_len) as Hc. unfold conserved in *. cbn [final yielded dropped app] in *.
+    cbn [yielded] in Hc.
+    assert (Hy : yielded (op_truncate dp l new_len) = []).
+    { unfold op_truncate. destruct (length l <=? new_len); [reflexivity|]. cbn. reflexivity. }
+    rewrite Hy in Hc. cbn [app] in Hc. rewrite app_assoc. apply Permutation_app_tail. exact Hc.
+  - set (ids' := firstn (new_len - length l - 1) ids).
+    destruct (extend_go_conserved cl ids' 0 l) as (made & Hf & rest & Hr & Hu).
+    destruct (extend_go_shape cl ids' 0 l) as (Hy & Hd).
+    exists made, rest. split; [exact Hr|].
+    destruct (unwound (extend_go cl 0 l ids')) eqn:Hw; unfold conserved; cbn [final yielded dropped unwound app].
+    + rewrite Hf. split; [|discriminate]. rewrite <- app_assoc. reflexivity.
+    + rewrite Hf. split; [|intros _ _; apply Hu; reflexivity]. rewrite app_nil_r, <- app_assoc. reflexivity.
+Qed.
+
+Theorem resize_is_std dp l new_len ids v : new_len - length l - 1 <= length ids ->
+  let o := op_resize (fun _ => false) dp l new_len ids v in
+  (length l < new_len -> final o = l ++ firstn (new_len - length l - 1) ids ++ [v] /\ dropped o = []) /\
+  (new_len <= length l -> final o = firstn new_len l) /\ length (final o) = new_len.
+Proof.
+  intros Hn. unfold op_resize. destruct (Nat.leb_spec new_len (length l)) as [Hle|Hgt]; cbv zeta.
+  - cbn [final]. rewrite truncate_spec. split; [intros H; lia|]. split; [reflexivity|]. rewrite firstn_length. lia.
+  - rewrite extend_go_quiet. cbn [unwound final dropped]. split; [intros _; rewrite <- app_assoc; split; reflexivity|].
+    split; [intros H; lia|]. rewrite !app_length, firstn_length. cbn [length]. lia.
+Qed.
+
+Theorem map_conserved l k : conserved (op_map l k) l.
+Proof.
+  unfold op_map, conserved. destruct k as [k|]; [destruct (k <? length l)|]; cbn; rewrite ?app_nil_r; reflexivity.
+Qed.
+
+Theorem map_keeps_all_or_nothing l k :
+  (unwound (op_map l k) = false -> final (op_map l k) = l /\ dropped (op_map l k) = []) /\
+  (unwound (op_map l k) = true -> final (op_map l k) = [] /\ dropped (op_map l k) = l).
+Proof.
+  unfold op_map. destruct k as [k|]; [destruct (k <? length l)|]; cbn; split; intros H; try discriminate; split; reflexivity.
+Qed.
+
+Theorem dedup_by_key_conserved key dp l : conserved (op_dedup_by_key key dp l) l.
+Proof. apply dedup_conserved. Qed.
+
+(* with a key function that never panics this is std's dedup_by_key: an element goes when its key
+   equals the key of the last element kept *)
+Theorem dedup_by_key_is_std (kf : nat -> nat) dp x r :
+  (forall y, dp y = false) ->
+  final (op_dedup_by_key (fun _ e => Some (kf e)) dp (x :: r)) =
+  x :: dedup_ref (fun _ e prev => kf e =? kf prev) 0 x r.
+Proof.
+  intros H. unfold op_dedup_by_key.
+  exact (dedup_is_std (fun _ e prev => kf e =? kf prev) dp x r H).
+Qed.
+
 (* ---------------------------------------------------------------- into_iter / splice / map_in_place / append *)
 Theorem into_iter_conserved dp l kf kb : conserved (op_into_iter dp l kf kb) l.
 Proof. unfold op_into_iter. apply drain_conserved. discriminate. Qed.
